@@ -24,6 +24,10 @@ type genOpts struct {
 	properSession bool
 	// attVariant: force this attestation variant (see attestations), 0 = any
 	attVariant int
+	// webAccount: the account is a did:web whose key the principal resolver knows
+	webAccount bool
+	// rsaServicePct: how often (%) the service's own key is an RSA key
+	rsaServicePct int
 }
 
 type wb struct {
@@ -130,6 +134,9 @@ func genWorld(r *rand.Rand, now int, o genOpts, class *string) *AWorld {
 	if r.Intn(4) == 0 {
 		b.addPrincipal("rsa", -1)
 	}
+	if o.rsaServicePct > 0 && r.Intn(100) < o.rsaServicePct {
+		w.Principals[0].Kind = "rsa"
+	}
 	w.Authority, w.AuthorityKey = 0, 0
 	if r.Intn(5) == 0 { // service identified by did:web, holding the key of principal 0
 		w.Authority = b.addPrincipal("web", 0)
@@ -166,7 +173,11 @@ func genWorld(r *rand.Rand, now int, o genOpts, class *string) *AWorld {
 		sessionAt = r.Intn(depth) // chain[sessionAt] issues token sessionAt+1
 		kind := "mailto"
 		acct := b.addPrincipal(kind, -1)
-		if r.Intn(4) == 0 && !o.properSession { // an account that also has a resolvable key
+		if o.webAccount {
+			w.Principals[acct].Kind = "web"
+			w.Principals[acct].Wraps = b.keyPrincipal()
+			w.ResolveKey = append(w.ResolveKey, [2]int{acct, w.Principals[acct].Wraps})
+		} else if r.Intn(4) == 0 && !o.properSession { // an account that also has a resolvable key
 			w.Principals[acct].Kind = "web"
 			w.Principals[acct].Wraps = b.keyPrincipal()
 			if r.Intn(2) == 0 {
@@ -304,7 +315,7 @@ func (b *wb) attestations(id int, holder int, force int) []int {
 		return b.addToken(AToken{Iss: iss, Aud: aud, Caps: []ACap{{Can: "ucan/attest", With: with, Nb: nb}}, Prfs: prfs, Exp: b.exp(), Signer: signer, Intact: true, AlgOk: true})
 	}
 	var out []int
-	variant := r.Intn(14)
+	variant := r.Intn(15)
 	if force > 0 {
 		variant = force
 	}
@@ -319,6 +330,8 @@ func (b *wb) attestations(id int, holder int, force int) []int {
 		a := mk(w.Authority, w.AuthorityKey, holder, authDid, [][2]int{{0, id}}, nil)
 		w.Tokens[a].Caps = append([]ACap{{Can: "other/thing", With: authDid, Nb: [][2]int{}}}, w.Tokens[a].Caps...)
 		out = append(out, a)
+	case 13: // the authority's DID in other letter case: another string, not the authority
+		out = append(out, mk(w.Authority, w.AuthorityKey, holder, authDid+"^", [][2]int{{0, id}}, nil))
 	case 0: // none
 	case 1: // for another token
 		out = append(out, mk(w.Authority, w.AuthorityKey, holder, authDid, [][2]int{{0, 900 + r.Intn(5)}}, nil))
@@ -361,7 +374,7 @@ func (b *wb) attestations(id int, holder int, force int) []int {
 
 const specialBase = 1000 // caveat values 1000.. are written as empty list, empty map, empty string, false, {a:1}, {a:1,b:2}, {b:2}
 
-var defectKinds = []string{"nearmiss", "twincap", "none", "wrongkey", "tamper", "aud", "resource", "ability", "nonowner", "expired", "tooearly", "algcode", "revoke", "missing", "policy", "decoys", "permute", "nbf-ok", "dup", "parsefail", "deadend"}
+var defectKinds = []string{"nearmiss", "twincap", "tamper-wrapped", "none", "wrongkey", "tamper", "aud", "resource", "ability", "nonowner", "expired", "tooearly", "algcode", "revoke", "missing", "policy", "decoys", "permute", "nbf-ok", "dup", "parsefail", "deadend"}
 
 func applyDefect(r *rand.Rand, w *AWorld, kind string) {
 	n := len(w.Tokens)
@@ -373,7 +386,30 @@ func applyDefect(r *rand.Rand, w *AWorld, kind string) {
 		t.Signer = b.keyPrincipal(t.Signer)
 	case "tamper":
 		t.Intact = false
-		t.Tamper = []string{"aud", "exp", "with", "can", "nb", "prf", "nbf"}[r.Intn(7)]
+		t.Tamper = []string{"aud", "exp", "with", "can", "nb", "prf", "nbf", "v"}[r.Intn(8)]
+	case "tamper-wrapped":
+		// alter, after signing, a token whose issuer is verified through a wrapped verifier: an account
+		// with a resolvable key, or the service (its attestations)
+		var cands []int
+		for i, x := range w.Tokens {
+			if (!isKeyKind(w.Principals[x.Iss].Kind) && x.Signer >= 0) || x.Iss == w.Authority {
+				cands = append(cands, i)
+			}
+		}
+		if len(cands) > 0 {
+			x := &w.Tokens[cands[r.Intn(len(cands))]]
+			x.Intact = false
+			x.Tamper = []string{"aud", "exp", "with", "can", "nb", "v"}[r.Intn(6)]
+		}
+	case "wrongkey-account":
+		// the account's token is signed by another key than the one the resolver names
+		for i := range w.Tokens {
+			x := &w.Tokens[i]
+			if !isKeyKind(w.Principals[x.Iss].Kind) && x.Signer >= 0 {
+				x.Signer = b.keyPrincipal(x.Signer)
+				break
+			}
+		}
 	case "aud":
 		t.Aud = r.Intn(len(w.Principals))
 	case "resource":
@@ -385,6 +421,19 @@ func applyDefect(r *rand.Rand, w *AWorld, kind string) {
 		if len(t.Caps) > 0 {
 			c := &t.Caps[r.Intn(len(t.Caps))]
 			c.Can = []string{"store/add", "store/*", "storefront/add", "upload/*", "*", "Store/add", "store/ad", "space/list"}[r.Intn(8)]
+		}
+	case "case":
+		// the same ability or resource in other letter case is another ability / resource
+		if len(t.Caps) > 0 {
+			c := &t.Caps[r.Intn(len(t.Caps))]
+			if r.Intn(2) == 0 && len(c.Can) > 0 {
+				c.Can = swapCase(c.Can[:1]) + c.Can[1:]
+				if r.Intn(2) == 0 {
+					c.Can = swapCase(c.Can)
+				}
+			} else if len(c.With) > 0 && c.With[0] == '@' && c.With[len(c.With)-1] != '*' {
+				c.With += "^"
+			}
 		}
 	case "nearmiss":
 		// a wildcard over a namespace that is a proper prefix of the claimed one: `sto/*` for `store/add`
@@ -474,6 +523,10 @@ func applyDefect(r *rand.Rand, w *AWorld, kind string) {
 			k := r.Intn(len(t.Prfs))
 			t.Prfs = append(t.Prfs, t.Prfs[k])
 			t.Inline = append(t.Inline, t.Inline[k])
+			if r.Intn(2) == 0 && t.Inline[k] {
+				// the first citation by link only, the later one embedded
+				t.Inline[k] = false
+			}
 		}
 	case "permute":
 		for i := range w.Tokens {
